@@ -457,14 +457,38 @@ Proof.
   destruct (b =? 44); discriminate.
 Qed.
 
+Lemma pw_cases s : (exists o s', Read.parse_whitespace E s = Ok (o, s')) \/ (exists c i, Read.parse_whitespace E s = Err c i).
+Proof.
+  unfold Read.parse_whitespace, peek, at_end. destruct (rest (advance _ s)); [destruct (tm E)|]; eauto.
+Qed.
+Lemma end_seq_cases s : (exists s', De.end_seq E s = Ok s') \/ (exists c i, De.end_seq E s = Err c i).
+Proof.
+  unfold De.end_seq, peek_error.
+  destruct (pw_cases s) as [(o & s1 & ->)|(c & i & ->)]; cbn; [|eauto]. destruct o as [b|]; [|eauto].
+  destruct (b =? 93); [eauto|]. destruct (b =? 44); [|eauto].
+  destruct (pw_cases (discard s1)) as [(o2 & s2 & ->)|(c & i & ->)]; cbn; [|eauto]. destruct o2 as [b2|]; [|eauto].
+  destruct (b2 =? 93); eauto.
+Qed.
+Lemma end_map_cases s : (exists s', De.end_map E s = Ok s') \/ (exists c i, De.end_map E s = Err c i).
+Proof.
+  unfold De.end_map, peek_error.
+  destruct (pw_cases s) as [(o & s1 & ->)|(c & i & ->)]; cbn; [|eauto]. destruct o as [b|]; [|eauto].
+  destruct (b =? 125); [eauto|]. destruct (b =? 44); eauto.
+Qed.
+
 Ltac end_now :=
   first [rewrite cur_end_seq_eq | rewrite cur_end_map_eq];
   match goal with
-  | |- context[De.end_seq E ?s] => let H := fresh "Hend" in destruct (De.end_seq E s) as [?s5| | |] eqn:H; [rewrite ?(end_seq_st_ok _ _ H)|..]
-  | |- context[De.end_map E ?s] => let H := fresh "Hend" in destruct (De.end_map E s) as [?s5| | |] eqn:H; [rewrite ?(end_map_st_ok _ _ H)|..]
+  | |- context[De.end_seq E ?s] =>
+    let H := fresh "Hend" in destruct (end_seq_cases s) as [[?s5 H]|(?c & ?i & H)]; rewrite H; [rewrite ?(end_seq_st_ok _ _ H)|]
+  | |- context[De.end_map E ?s] =>
+    let H := fresh "Hend" in destruct (end_map_cases s) as [[?s5 H]|(?c & ?i & H)]; rewrite H; [rewrite ?(end_map_st_ok _ _ H)|]
   end; red1; repeat dstep; try reflexivity.
+Lemma leave_cases s : (exists s', leave E s = Ok s') \/ leave E s = Panic.
+Proof. unfold leave. destruct (limit_disabled (cf E)); [eauto|]. destruct (255 <=? depth s); eauto. Qed.
 Ltac leave_now :=
-  match goal with |- context[leave E ?s] => destruct (leave E s) as [?s4| | |] end; red1; try reflexivity; repeat dstep.
+  match goal with |- context[leave E ?s] =>
+    let H := fresh "Hlv" in destruct (leave_cases s) as [[?s4 H]|H]; rewrite H end; red1; try reflexivity; repeat dstep.
 Ltac frame_now :=
   unfold DeTyped.frame;
   match goal with |- context[enter E ?s] => destruct (enter E s) as [?s2| | |] end; red1; try reflexivity; repeat dstep;
